@@ -6,6 +6,7 @@
 -/
 import Driver.Util
 import Jb.Model.Engine
+import Jb.Model.Htsvoice
 
 namespace Drv.Eng
 open Drv Jb
@@ -103,6 +104,13 @@ def runVol : P Verdict := do
 def runGvv : P Verdict := do
   let kind ← next
   let stream ← nat
+  let np ← nat
+  let pats ← many np (do pure ((unesc (← next)).map Char.ofNat))
+  let nstate ← nat
+  let nl ← nat
+  let labels ← many nl (do pure ((unesc (← next)).map Char.ofNat))
+  let nsw ← nat
+  let sw ← many nsw boolTok
   let ws ← listOf flt
   let gvMean ← listOf flt
   let nel ← nat
@@ -110,6 +118,11 @@ def runGvv : P Verdict := do
   let mlEqual ← boolTok
   let lpfSame ← boolTok
   let mut orc : Option String := none
+  -- the per-state GV switch is exactly "label outside the voice's GV-off contexts" (Synth.modelsGv)
+  let expected := (labels.map fun l => List.replicate nstate (!(Hts.questionTest pats l))).flatten
+  if expected != sw then
+    let k := ((List.range (max expected.length sw.length)).find? fun i => expected[i]? != sw[i]?).getD 0
+    orc := some s!"GV switch of state {k} (label {k / (max nstate 1)}: {String.ofList (labels.getD (k / (max nstate 1)) [])}) is {sw[k]?}, but the voice's GV-off contexts make it {expected[k]?}"
   if nel ≥ 100 then
     for (w, v) in ws.zip vars do
       for (k, (x, gm)) in (List.range v.length).zip (v.zip gvMean) do
